@@ -36,6 +36,10 @@ def configs():
             out.append((c, d))
     for d in (2, 5, 10):
         out.append(("Michaelwicz", d))
+    # "every dimension the constructor accepts": the other dimensions are probed at run time (see bench()); a
+    # dimension the constructor rejects with ValueError is simply not part of the domain
+    for d in (1, 3, 4, 6, 7, 8, 9, 12):
+        out.append(("Michaelwicz?", d))
     for c in FIXED:
         out.append((c, None))
     return out
@@ -49,8 +53,21 @@ HINTS = {"Michaelwicz": [2.202906, 1.570796, 1.284992, 1.923058, 1.720470, 1.570
 _cache = {}
 
 
+class Rejected(Exception):
+    pass
+
+
 def bench(name, dim):
     key = (name, dim)
+    if name.endswith("?"):
+        if key not in _cache:
+            try:
+                _cache[key] = bench(name[:-1], dim)
+            except (ValueError, AssertionError, KeyError):
+                _cache[key] = None
+        if _cache[key] is None:
+            raise Rejected()
+        return _cache[key]
     if key not in _cache:
         import artap.benchmark_functions as bf
         import artap.benchmark_robust as br
@@ -134,6 +151,8 @@ def build_point(case, prob):
     hint = None
     if kind == "optimum" and not has_opt:
         hint = HINTS.get(type(prob).__name__)
+        if hint is not None and len(hint) < len(box):
+            hint = None
         kind = "hint" if hint else "uniform"
     if kind == "sphere" and type(prob).__name__ != "EqualityConstr":
         kind = "uniform"
@@ -164,8 +183,12 @@ def build_point(case, prob):
 
 def check_points(case):
     name, dim = CONFIGS[case["cfg"]]
-    with guard("points"):
-        prob = bench(name, dim)
+    try:
+        with guard("points", allowed=(Rejected,)):
+            prob = bench(name, dim)
+    except Rejected:
+        return {"nt": False, "classes": ["dimension-rejected-by-constructor"]}
+    name = name.rstrip("?")
     box = box_of(prob)
     x, kind = build_point(case, prob)
     v = evaluate_checked(prob, name, dim, x, case["np"], "points", kind)
@@ -188,8 +211,12 @@ def optimum_items(tier):
 
 def check_optimum(case):
     name, dim = CONFIGS[case["cfg"]]
-    with guard("optimum"):
-        prob = bench(name, dim)
+    try:
+        with guard("optimum", allowed=(Rejected,)):
+            prob = bench(name, dim)
+    except Rejected:
+        return {"nt": False, "classes": ["dimension-rejected-by-constructor"]}
+    name = name.rstrip("?")
     if "global_optimum_coords" not in prob.__dict__:
         return {"nt": False, "classes": ["no-documented-coordinates"]}
     x = [float(v) for v in prob.global_optimum_coords]
@@ -220,12 +247,18 @@ def check_search(case):
     import numpy as np
     from scipy.optimize import minimize
     name, dim = CONFIGS[case["cfg"]]
-    with guard("search"):
-        prob = bench(name, dim)
+    try:
+        with guard("search", allowed=(Rejected,)):
+            prob = bench(name, dim)
+    except Rejected:
+        return {"nt": False, "classes": ["dimension-rejected-by-constructor"]}
+    name = name.rstrip("?")
     box = box_of(prob)
     sg = sign_of(prob)
     x0 = [lb + case["t"][i % 10] * (ub - lb) for i, (lb, ub) in enumerate(box)]
     centre = prob.global_optimum_coords if "global_optimum_coords" in prob.__dict__ else HINTS.get(name)
+    if centre is not None and len(centre) < len(box):
+        centre = None
     if case["near"] and centre is not None:
         x0 = clip([float(o) + (2 * case["t"][i % 10] - 1) * 0.02 * (ub - lb)
                    for i, (o, (lb, ub)) in enumerate(zip(centre, box))], box)
@@ -267,8 +300,12 @@ def scan_items(tier):
 
 def check_scan(case):
     name, dim = CONFIGS[case["cfg"]]
-    with guard("scan"):
-        prob = bench(name, dim)
+    try:
+        with guard("scan", allowed=(Rejected,)):
+            prob = bench(name, dim)
+    except Rejected:
+        return {"nt": False, "classes": ["dimension-rejected-by-constructor"], "n": 0}
+    name = name.rstrip("?")
     box = box_of(prob)
     g = case["grid"]
     if "row" in case:
